@@ -231,6 +231,41 @@ def search(ctx):
                 # which circuits into_bench accepts (e.g. constants need an input to hang on) is C14's clause
                 ctx.count('into_bench_raised:' + type(e).__name__)
     edited_objects(ctx)
+    cnf_template_oracle(ctx)
+
+
+def cnf_template_oracle(ctx):
+    """the CNF templates are another interpreter of gate types: for one gate of every type over operands that repeat
+    once, twice, three and more times, the CNF plus an input assignment is satisfiable exactly when the gate evaluates
+    to True"""
+    from props.c05 import py_tseytin, sat
+    from common import with_users
+    rng = ctx.rng('cnf-templates')
+    cases = []
+    for t in gen.SYM_NARY:
+        for ops in (['a', 'a'], ['a', 'a', 'a'], ['a', 'b', 'a', 'a'], ['a', 'a', 'a', 'b', 'b'], ['b', 'a', 'a', 'a', 'a', 'a'],
+                    ['a', 'b', 'c', 'b', 'b'], [rng.choice('abc') for _ in range(7)]):
+            cases.append((t, ops))
+    for t in gen.CMP + gen.LR:
+        cases += [(t, ['a', 'a']), (t, ['a', 'b']), (t, ['b', 'a'])]
+    for t, ops in cases:
+        j = with_users({'gates': [['a', 'INPUT', []], ['b', 'INPUT', []], ['c', 'INPUT', []], ['g', t, ops]],
+                        'inputs': ['a', 'b', 'c'], 'outputs': ['g'], 'blocks': []})
+        ctx.case(json.dumps(['cnf_template', t, ops]))
+        r = py_tseytin(j, None)
+        if 'err' in r:
+            ctx.violation('cnf_template.raises', f'tseytin_transformation raised {r["err"]} on {t}{ops}', input={'c': j})
+            continue
+        cnf, lits = r['ok']['cnf'], dict(map(tuple, r['ok']['lits']))
+        for bits in itertools.product('FT', repeat=3):
+            ev = py_exec({'op': 'evaluate', 'c': j, 'vals': list(bits)})
+            units = [[lits[i]] if b == 'T' else [-lits[i]] for i, b in zip(['a', 'b', 'c'], bits) if i in lits]
+            if (sat(cnf + units) is not None) != (ev.get('ok') == ['T']):
+                ctx.violation('cnf_template.wrong', f'CNF of {t}{ops} under inputs {bits}: satisfiable={sat(cnf + units) is not None}, '
+                              f'evaluation gives {ev}', input={'c': j, 'assignment': list(bits)})
+                break
+        else:
+            ctx.count('cnf_template:ok')
 
 
 def snapshot(c):
